@@ -29,10 +29,10 @@ MC_PROPS = {
 }
 
 
-def consts(algs, programs, maxrun, maxreload=0, pinned=False):
+def consts(algs, programs, maxrun, maxreload=0, pinned=False, targets=None):
     return {
         'Alg': tlc.tla_set(algs),
-        'Targets': tlc.tla_set(TARGETS),
+        'Targets': tlc.tla_set(targets or TARGETS),
         'Programs': '<- ' + programs if programs else '{}',
         'MaxRun': str(maxrun),
         'MaxReload': str(maxreload),
@@ -129,11 +129,11 @@ def gen_schedules(chk, name, algs, programs, maxrun, maxreload, timeout=1800):
     return parse_scheds(res)
 
 
-def sampled_schedules(chk, name, algs, programs, maxrun, maxreload, rate, focus, timeout=1800):
+def sampled_schedules(chk, name, algs, programs, maxrun, maxreload, rate, focus, timeout=1800, targets=None):
     '''BFS over a larger instance, every transition printed with probability 1/rate (uniform over transitions,
     so deep histories dominate -- unlike random walks); nondeterministic across runs (multi-worker BFS)'''
     cfg = os.path.join(chk.work, f'{name}.cfg')
-    tlc.write_cfg(cfg, spec='GenSpecFocus' if focus else 'GenSpec', constants=consts(algs, programs, maxrun, maxreload), extra=['VIEW View', f'ACTION_CONSTRAINT EmitS{rate}'])
+    tlc.write_cfg(cfg, spec='GenSpecFocus' if focus else 'GenSpec', constants=consts(algs, programs, maxrun, maxreload, targets=targets), extra=['VIEW View', f'ACTION_CONSTRAINT EmitS{rate}'])
     res = tlc.run('Sched_Gen.tla', cfg, workers=core.NPROC, timeout=timeout, out_file=os.path.join(chk.work, f'{name}.out'))
     if not res.ok:
         raise core.Machinery(f'generation {name} failed: {res.error or res.violated}')
@@ -141,6 +141,16 @@ def sampled_schedules(chk, name, algs, programs, maxrun, maxreload, rate, focus,
     chk.mc_runs.append(dict(res.summary(), name=name, module='Sched_Gen.tla', mode=f'transitions sampled 1/{rate}'))
     chk.states += res.distinct
     chk.transitions += res.generated
+    return parse_scheds(res)
+
+
+def gen_focus_all(chk, programs):
+    cfg = os.path.join(chk.work, 'focus1t_all.cfg')
+    tlc.write_cfg(cfg, spec='GenSpecFocus', constants=consts(ALG3, programs, 3, 0, targets=['T1']), extra=['VIEW View', 'ACTION_CONSTRAINT Emit'])
+    res = tlc.run('Sched_Gen.tla', cfg, workers=1, timeout=1800, out_file=os.path.join(chk.work, 'focus1t_all.out'))
+    if not res.ok:
+        raise core.Machinery(f'generation focus1t_all failed: {res.error or res.violated}')
+    chk.mc_runs.append(dict(res.summary(), name='focus1t_all', module='Sched_Gen.tla', mode='all transitions'))
     return parse_scheds(res)
 
 
@@ -292,8 +302,12 @@ def run(pid, tier, seed, replay=None):
     total_transitions = len(scheds)
     if not thorough:
         rnd.shuffle(scheds)
-        scheds = scheds[:1500]
-    focus = sampled_schedules(chk, 'focus3', ALG3, 'Programs3Focus', 3, 0, 100 if thorough else 500, True)
+        scheds = scheds[:1200]
+    # deep histories (3 requests, one target): EVERY transition of 3 (quick) / 9 (thorough) focus programs ...
+    focus = gen_focus_all(chk, 'Programs3Focus' if thorough else 'Programs3Quick')
+    # ... and two targets, sampled
+    if thorough:
+        focus += sampled_schedules(chk, 'focus3', ALG3, 'Programs3Focus', 3, 0, 100, True)
     sim3 = sim_schedules(chk, 'sim3', ALG3, 'Programs3Val', 3, 1, 3000, 16, seed) if thorough else []
     if thorough:
         focus += sampled_schedules(chk, 'full2', ALG3, 'Programs3Alg', 2, 0, 250, False)
